@@ -378,7 +378,8 @@ func runMutant(self, prop, repo string, sp mutantSpec, baseFailed map[string]boo
 			m.Fired = append(m.Fired, o.Rule)
 		}
 		if o.Rule == "R0" || strings.HasSuffix(o.Rule, ".R0") {
-			m.Note = "mutant does not load: " + firstLine(o.Detail)
+			m.Note = "catalogue error, mutant does not compile (skipped): " + firstLine(o.Detail)
+			m.Applied = false
 		}
 		if o.Rule == m.Expect {
 			m.Detected = true
